@@ -20,6 +20,12 @@ def readExpr : Nat → List String → Option (SExpr × List String)
       let (a, r1) ← readExpr f rest
       let (b, r2) ← readExpr f r1
       pure (.bin a b, r2)
+    | "st" => match rest with
+      | n :: r => do
+        let (i, r1) ← readExpr f r
+        let (e, r2) ← readExpr f r1
+        pure (.store n i e, r2)
+      | [] => none
     | _ => none
 
 def readStmt : Nat → List String → Option (SStmt × List String)
